@@ -21,7 +21,7 @@ open GrpcProofs.Lemmas.WRRStride GrpcProofs.Lemmas.WRRScale
 Full statement: for every weight vector containing the scaled maximum 65535 (which newScheduler
 guarantees, `scaled_has_max`) and EVERY counter value v, `nextIndex` consumes at most n sequence
 numbers. That is FALSE for the code as it is when the uint32 counter wraps inside the pick and
-n ∤ 2^32 (`pick_terminates_within_n_counterexample`, known finding C36-W1). Proved instead:
+n ∤ 2^32 (`pick_terminates_within_n_counterexample`, known finding F8b). Proved instead:
 `_partial` (no wrap inside the next n numbers: at most n) and `pick_terminates_within_2n`
 (every v: fewer than 2n). -/
 
@@ -94,7 +94,7 @@ theorem exact_proportion (ws : List Nat) (i s : Nat) (hi : i < ws.length) (hw : 
 /-- Counter form. Full statement: for every counter value v the next 65535·n values of the uint32
     counter choose backend i exactly ws[i] times. Proved for windows that do not contain the wrap
     (v + 65535·n < 2^32); across the wrap the generation restarts at 0 and the count can be off
-    (same root cause as C36-W1, observed on the real code by the monitor). -/
+    (same root cause as F8b, observed on the real code by the monitor). -/
 theorem exact_proportion_counter_partial (ws : List Nat) (i v : Nat) (hi : i < ws.length)
     (hw : ws.getD i 0 ≤ 65535) (hv : v + 65535 * ws.length < seqMod) :
     (chosenSeq ws v (65535 * ws.length)).count i = ws.getD i 0 := by
